@@ -769,7 +769,8 @@ def environment_tasks(task, tier, seed):
         if not creates:
             fails.append(f"{qual}: no root generator found")
         row("make_module_async.exhausts", fails)
-    return rs
+    from contracts.emit_template import soften
+    return soften(rs, replay_close)
 
 
 def async_loop_context_table(task, tier, seed):
